@@ -119,12 +119,16 @@ def fire(w, ev, rc_of):
 
 
 def cluster_status(out):
-    """Status through the public API (no lock contention inside the observer)."""
-    import filelock
+    """The persisted status, read with JADE's own loader (Cluster._deserialize) while no virtual process runs.
+    Returns None when the status cannot be read: a lock marker was left behind (wedged submission) or the files
+    are missing/unparsable.  The cluster lock is not taken: the observer runs on the scheduler thread while every
+    virtual process is suspended, and JADE's lock wrapper would re-create the marker if the read itself failed."""
     from jade.jobs.cluster import Cluster
 
+    if os.path.exists(os.path.join(out, Cluster.LOCK_FILE)):
+        return None
     try:
-        cluster, _ = Cluster.deserialize(out, deserialize_jobs=True)
-    except filelock.Timeout:
-        return None  # a lock marker was left behind: the submission is wedged
+        cluster, _ = Cluster._deserialize(out, deserialize_jobs=True)
+    except Exception:
+        return None
     return cluster
